@@ -13,7 +13,7 @@ KFAMILIES = {
 PROPS = {
     "C02": {
         "level": "proof",
-        "v": ["alloc"],
+        "v": ["arch"],
         "k": [],
         "k_thorough": [],
         "assumptions": ["A1", "A2", "A5"],
@@ -24,7 +24,7 @@ PROPS = {
     },
     "C13": {
         "level": "proof",
-        "v": ["alloc"],
+        "v": ["arch"],
         "k": [],
         "k_thorough": [],
         "assumptions": ["A1", "A2", "A5"],
